@@ -482,9 +482,11 @@ func (p *Process) onProcessEnd(state string) {
 	}
 	p.mtxStopFn.Unlock()
 	p.stopProbes()
-	if p.readyProber != nil {
-		p.readyCancelFn()
-	}
+	// release everything a dependent process may be waiting on, whatever
+	// the way this process got here (completed, skipped, failed to start)
+	p.readyCancelFn()
+	p.readyLogCancelFn(fmt.Errorf("process %s ended", p.getName()))
+	p.runCancelFn()
 	p.setState(state)
 	p.updateProcState()
 
